@@ -822,7 +822,7 @@ func e10As(c Case, prop string, classes map[string]bool) Case {
 func init() {
 	register("E10", func(tier string, seed uint64) []Case {
 		var cases []Case
-		n := tierPick(tier, 8, 600)
+		n := tierPick(tier, 8, 2500)
 		for _, k := range e10Joins {
 			for i := 0; i < n; i++ {
 				cases = append(cases, e10Case(k, seed, i))
